@@ -37,6 +37,8 @@ def int64Max : Int := 9223372036854775807
 
 /-- one JSON value in a parameter position, as `json.Decoder` with `UseNumber` hands it over -/
 inductive JParam where
+  | num (lit : String) (tok : String)  -- a JSON number as written (`json.Number`); `tok` names the
+                                -- double nearest to it (opaque: floats are not computed with)
   | intLit (z : Int)            -- a number written as an integer literal (any magnitude)
   | fltLit (f : Flt)            -- any other number (fraction and/or exponent)
   | bool (b : Bool)
@@ -91,11 +93,68 @@ def parseHex (s : String) : Option (List UInt8) :=
         | _, _ => none
     | [] => none
 
+/-! ### json.Number: integer or float -/
+
+def decDigits (cs : List Char) : Option Nat :=
+  if cs.isEmpty then none
+  else cs.foldl (fun acc ch => do
+    let a ← acc
+    if '0' ≤ ch ∧ ch ≤ '9' then pure (a * 10 + (ch.toNat - '0'.toNat)) else none) (some 0)
+
+/-- an optional sign as `strconv.ParseInt` accepts it -/
+def splitSign : List Char → Bool × List Char
+  | [] => (false, [])
+  | c :: r => if c = '-' then (true, r) else if c = '+' then (false, r) else (false, c :: r)
+
+/-- `strconv.ParseInt(s, 10, 64)` (what `json.Number.Int64` calls): an optional sign, one or more
+decimal digits and nothing else; `none` = syntax error OR value outside int64 -/
+def parseInt10 (s : String) : Option Int :=
+  match decDigits (splitSign s.toList).2 with
+  | none => none
+  | some n =>
+    let z : Int := if (splitSign s.toList).1 then -(n : Int) else (n : Int)
+    if int64Min ≤ z ∧ z ≤ int64Max then some z else none
+
+/-- the decimal number `[-]ddd[.ddd][e[+-]dd]` as (negative, m, e): value = ±m × 10^e -/
+def parseJSONNumber (s : String) : Option (Bool × Nat × Int) := do
+  let cs := s.toList
+  let (neg, body) := match cs with
+    | '-' :: r => (true, r)
+    | r => (false, r)
+  let mant := body.takeWhile (fun ch => ch != 'e' && ch != 'E')
+  let expPart := (body.dropWhile (fun ch => ch != 'e' && ch != 'E')).drop 1
+  let ip := mant.takeWhile (· != '.')
+  let fp := (mant.dropWhile (· != '.')).drop 1
+  let m ← decDigits (ip ++ fp)
+  let (eneg, ed) := match expPart with
+    | '-' :: r => (true, r)
+    | '+' :: r => (false, r)
+    | r => (false, r)
+  let e : Nat ← if ed.isEmpty then some 0 else decDigits ed
+  pure (neg, m, (if eneg then -(e : Int) else (e : Int)) - (fp.length : Int))
+
+/-- the smallest magnitude that `strconv.ParseFloat` rounds to ±Inf (and reports ErrRange for):
+the midpoint between the largest double and 2^1024 -/
+def floatOverflowBound : Nat :=  -- = 2^1024 - 2^970
+  179769313486231580793728971405303415079934132710037826936173778980444968292764750946649017977587207096330286416692887910946555547851940402630657488671505820681908902000708383676273854845817711531764475730270069855571366959622842914819860834936475292719074168444365510704342711559699508093042880177904174497792
+
+/-- `json.Number.Float64` returns an error: the literal's magnitude rounds to infinity -/
+def floatOverflows (s : String) : Bool :=
+  match parseJSONNumber s with
+  | some (_, m, e) => if e ≥ 0 then decide (m * 10 ^ e.toNat ≥ floatOverflowBound)
+                      else decide (m ≥ floatOverflowBound * 10 ^ (-e).toNat)
+  | none => false
+
 /-- what `Flt` an out-of-range integer literal becomes (`json.Number.Float64`) -/
 def bigToFlt (z : Int) : Flt := .fin ("int:" ++ toString z)
 
 /-- `makeParameter` -/
 def makeParameter : JParam → Option Param
+  | .num lit tok =>
+    -- i64, err := num.Int64(); if err == nil → int64; else f64, err := num.Float64(); if err != nil → error
+    match parseInt10 lit with
+    | some z => some (.i z)
+    | none => if floatOverflows lit then none else some (.d (.fin tok))
   | .intLit z => if int64Min ≤ z ∧ z ≤ int64Max then some (.i z) else some (.d (bigToFlt z))
   | .fltLit f => some (.d f)
   | .bool b => some (.b b)
@@ -260,7 +319,7 @@ def assocGet (cols : List String) (vals : List JOut) (c : String) : Option JOut 
 `bind <param>` → `<sqlval>`
 `read <plain|datetime|boolean> <0|1 text-typed column> <0|1 blob_array> <sqlval>` → `<jout>` | `error`
 `readcol <plain|datetime|boolean> <e|t|o declared type> <0|1 blob_array> <sqlval,sqlval,…>` → `<jout>,<jout>,…`
-tokens: jparam `i:<int>` `f:<hex tok>` `finf:<0|1>` `b:<0|1>` `n` `s:<hex>` `a:<e,e,…>|a:-` (element `x` = not an integer) `o`;
+tokens: jparam `num:<hex literal>:<hex float token>` `i:<int>` `f:<hex tok>` `finf:<0|1>` `b:<0|1>` `n` `s:<hex>` `a:<e,e,…>|a:-` (element `x` = not an integer) `o`;
 param `I:<int>` `D:<hex tok>` `Dinf:<0|1>` `B:<0|1>` `Y:<hex>` `S:<hex>` `N`;
 sqlval `integer:<int>` `real:<hex tok>` `realinf:<0|1>` `text:<hex>` `blob:<hex>` `null`;
 jout `num:<int>` `fnum:<hex tok>` `bool:<0|1>` `str:<hex>` `b64:<hex>` `arr:<hex>` `lossy:<hex>` `null`. -/
@@ -289,7 +348,11 @@ def parseFlt (tag body : String) (fin inf : String) : Option Flt :=
 
 def parseJParam (t : String) : Option JParam :=
   let (tag, body) := splitTag t
-  if tag == "i" then (parseInt body).map .intLit
+  if tag == "num" then
+    match body.splitOn ":" with
+    | [l, t] => do let l ← tokString l; let t ← tokString t; pure (.num l t)
+    | _ => none
+  else if tag == "i" then (parseInt body).map .intLit
   else if tag == "f" || tag == "finf" then (parseFlt tag body "f" "finf").map .fltLit
   else if tag == "b" then (bit body).map .bool
   else if tag == "n" then some .null
